@@ -14,7 +14,7 @@ import (
 func init() {
 	register(&propDef{
 		id:      "C24",
-		explain: "Structural necessary conditions of 'range requests yield exactly the requested bytes or a proper refusal': (E10) on every acyclic path of ParseByteRange (decided in the zone abstract domain, with the post-condition 'ParseUint returns a non-negative value when its error is nil'), every success return satisfies 0 <= startPos <= endPos < contentLength; (R2) in the FS handler a ParseByteRange error leads, on every path, to the reader being closed and a 416 answer; success leads to UpdateByteRange and SetContentRange being called with the parsed positions and to status 206; a failed UpdateByteRange closes the reader; (R3) not-modified and HEAD branches give the reader back (decrement / close) before returning; (R-pool) a pooled file reader is re-armed before it goes back to its pool: every field that UpdateByteRange sets and Read/WriteTo consult is re-assigned by Close on every path; (R-bound) a reader that serves the window [startPos, endPos) of a file through ReadAt never asks for more than the window holds: on every path to every ReadAt call - from the function entry, or from the head of the enclosing loop with the loop variables unconstrained, so the bound has to be re-established in every iteration - the length of the buffer handed over is at most endPos minus the offset handed over (zone domain). Not decided: the bytes served, compressed variants, date comparison to the second.",
+		explain: "Structural necessary conditions of 'range requests yield exactly the requested bytes or a proper refusal': (E10) on every acyclic path of ParseByteRange (decided in the zone abstract domain, with the post-condition 'ParseUint returns a non-negative value when its error is nil'), every success return satisfies 0 <= startPos <= endPos < contentLength; (R2) in the FS handler a ParseByteRange error leads, on every path, to the reader being closed and a 416 answer; success leads to UpdateByteRange and SetContentRange being called with the parsed positions and to status 206; a failed UpdateByteRange closes the reader; (R3) not-modified and HEAD branches give the reader back (decrement / close) before returning; (R-pool) a pooled file reader is re-armed before it goes back to its pool: every field that UpdateByteRange sets and Read/WriteTo consult is re-assigned by Close on every path; (R-enc) every assignment of Content-Encoding in the FS handler is control-dependent on the opened file's own compressed flag (fasthttp may decline to compress a file although the request negotiated it); (R-fresh) an on-disk compressed copy that already existed is opened only after its modification time was compared with the original's, unless the same path has just written it; (R-bound) a reader that serves the window [startPos, endPos) of a file through ReadAt never asks for more than the window holds: on every path to every ReadAt call - from the function entry, or from the head of the enclosing loop with the loop variables unconstrained, so the bound has to be re-established in every iteration - the length of the buffer handed over is at most endPos minus the offset handed over (zone domain). Not decided: the bytes served, compressed variants, date comparison to the second.",
 		run:     runC24,
 	})
 }
@@ -248,6 +248,178 @@ func runC24(p *Prog, r *Report) {
 	}
 	r.Floor("R-pool", "range-state fields of pooled readers", n, 3)
 	rangeBoundedReads(p, r)
+	encodingFollowsFile(p, r)
+	compressedCopyIsFresh(p, r)
+}
+
+// dependsOnModTime: the value is computed from a ModTime() result.
+func dependsOnModTime(v ssa.Value, depth int, seen map[ssa.Value]bool) bool {
+	if v == nil || depth < 0 || seen[v] {
+		return false
+	}
+	seen[v] = true
+	if c, ok := v.(*ssa.Call); ok {
+		if c.Call.IsInvoke() && c.Call.Method.Name() == "ModTime" {
+			return true
+		}
+		if f := c.Call.StaticCallee(); f != nil && f.Name() == "ModTime" {
+			return true
+		}
+	}
+	in, ok := v.(ssa.Instruction)
+	if !ok {
+		return false
+	}
+	for _, op := range in.Operands(nil) {
+		if *op != nil && dependsOnModTime(*op, depth-1, seen) {
+			return true
+		}
+	}
+	return false
+}
+
+// compressedCopyIsFresh (R-fresh): an on-disk compressed copy that already
+// existed is served only after its modification time was compared with the
+// original's, unless this very path has just written it. (Both places that
+// pick up an existing copy need it: openFSFile, which looks beside the
+// original, and compressFileNolock, which looks in CompressRoot.)
+func compressedCopyIsFresh(p *Prog, r *Report) {
+	newFSFile := p.Func("(*fsHandler).newFSFile")
+	newComp := p.Func("(*fsHandler).newCompressedFSFile")
+	if newFSFile == nil || newComp == nil {
+		r.Undecided("R-fresh", "fsHandler.newFSFile / newCompressedFSFile", "anchor not found")
+		return
+	}
+	const (
+		bCompared uint64 = 1 << iota
+		bWritten
+	)
+	n := 0
+	for _, fn := range p.funcsIn("") {
+		if recvTypeName(fn) != "fsHandler" || fn == newComp || fn == newFSFile {
+			continue
+		}
+		type site struct {
+			n, bad int
+			wit    []string
+		}
+		sites := map[*ssa.Call]*site{}
+		var order []*ssa.Call
+		for _, b := range fn.Blocks {
+			for _, in := range b.Instrs {
+				c, ok := in.(*ssa.Call)
+				if !ok {
+					continue
+				}
+				switch c.Call.StaticCallee() {
+				case newComp:
+				case newFSFile:
+					// receiver, f, fileInfo, compressed, ...
+					if len(c.Call.Args) < 4 {
+						continue
+					}
+					if k, isC := c.Call.Args[3].(*ssa.Const); isC && k.Value != nil && k.Value.ExactString() == "false" {
+						continue
+					}
+				default:
+					continue
+				}
+				sites[c] = &site{}
+				order = append(order, c)
+			}
+		}
+		if len(order) == 0 {
+			continue
+		}
+		x := NewExplorer(p, fn, Hooks{
+			Instr: func(x *Explorer, st *State, in ssa.Instruction) {
+				c, ok := in.(*ssa.Call)
+				if !ok {
+					return
+				}
+				if f := c.Call.StaticCallee(); f != nil && f.Pkg != nil && f.Pkg.Pkg.Path() == "os" && (f.Name() == "Rename" || f.Name() == "CreateTemp" || f.Name() == "Create") {
+					st.Set(bWritten)
+				}
+				s := sites[c]
+				if s == nil {
+					return
+				}
+				if c.Call.StaticCallee() == newFSFile && x.Eval(st, c.Call.Args[3]) == False {
+					return // the plain file
+				}
+				s.n++
+				if !st.Has(bCompared) && !st.Has(bWritten) {
+					s.bad++
+					if s.wit == nil {
+						s.wit = x.Path(st)
+					}
+				}
+			},
+			Branch: func(x *Explorer, st *State, cond ssa.Value, taken bool, from *ssa.BasicBlock) {
+				if dependsOnModTime(cond, 6, map[ssa.Value]bool{}) {
+					st.Set(bCompared)
+				}
+			},
+		})
+		x.Filter = noIntFilter
+		for _, prm := range fn.Params {
+			if isBool(prm.Type()) {
+				x.Track(prm)
+			}
+		}
+		x.Run(nil)
+		for _, c := range order {
+			s := sites[c]
+			n++
+			construct := fmt.Sprintf("%s: the compressed file opened at %s was written on this path or had its modification time compared with the original's", funcName(fn), funcName(c.Call.StaticCallee()))
+			if x.Aborted || s.n == 0 {
+				r.Undecided("R-fresh", construct, "exploration gave no verdict")
+				continue
+			}
+			r.Check("R-fresh", construct, s.bad == 0, p.Pos(c.Pos()),
+				fmt.Sprintf("%d of %d explored arrivals open an existing compressed copy unconditionally: a copy made for an older version of the file is served (and its Last-Modified announced) after the file changed", s.bad, s.n), s.wit...)
+		}
+	}
+	r.Floor("R-fresh", "places that open an on-disk compressed copy", n, 3)
+}
+
+// encodingFollowsFile (R-enc): compressAndOpenFSFile may hand back the plain
+// file although compression was negotiated (incompressible content, big file,
+// already-compressed suffix, read-only cache directory). What the response
+// declares must therefore follow the file that was opened, not the request:
+// every call in the FS handler that sets Content-Encoding is control-dependent
+// on the opened file's own 'compressed' flag being true.
+func encodingFollowsFile(p *Prog, r *Report) {
+	h := p.Func("(*fsHandler).handleRequest")
+	if h == nil {
+		r.Undecided("R-enc", "fsHandler.handleRequest", "anchor not found")
+		return
+	}
+	n := 0
+	for _, b := range h.Blocks {
+		for _, in := range b.Instrs {
+			c, ok := in.(*ssa.Call)
+			if !ok {
+				continue
+			}
+			f := c.Call.StaticCallee()
+			if f == nil || recvTypeName(f) != "ResponseHeader" || (f.Name() != "SetContentEncodingBytes" && f.Name() != "SetContentEncoding") {
+				continue
+			}
+			n++
+			ok = false
+			var seen []string
+			for _, g := range guardsOf(b) {
+				seen = append(seen, fmt.Sprintf("%s=%v", g.Atom, g.Pol))
+				if g.Atom == "field:fsFile.compressed" && g.Pol {
+					ok = true
+				}
+			}
+			r.Check("R-enc", fmt.Sprintf("fsHandler.handleRequest: %s(%s) is reached only when the opened file's compressed flag is set", f.Name(), argLabel(c)), ok, p.Pos(c.Pos()),
+				"the declared Content-Encoding does not depend on whether the file that was opened is the compressed variant: when fasthttp declines to compress a file (incompressible, too big, already carrying the compressed suffix) the raw bytes go out labelled as encoded and do not decode to the file's content", strings.Join(seen, " "))
+		}
+	}
+	r.Floor("R-enc", "Content-Encoding assignments in the FS handler", n, 3)
 }
 
 // rangeBoundedReads (R-bound): see the explanation text. The obligation
@@ -337,4 +509,14 @@ func structOf(t types.Type) *types.Struct {
 	}
 	st, _ := t.Underlying().(*types.Struct)
 	return st
+}
+
+func argLabel(c *ssa.Call) string {
+	if len(c.Call.Args) < 2 {
+		return ""
+	}
+	if g := globalOf(c.Call.Args[1]); g != "" {
+		return g
+	}
+	return c.Call.Args[1].Name()
 }
